@@ -66,8 +66,11 @@ int main(int argc, char **argv)
 	unsigned d;
 	long k;
 	sercomm_init();
-	for (i = 0; i < _SC_DLCI_MAX; i++)
-		if (i != SC_DLCI_ECHO) sercomm_register_rx_cb(i, handler);
+	for (i = 0; i < _SC_DLCI_MAX; i++) {
+		int skip = 0, a;
+		for (a = 1; a < argc; a++) if (atoi(argv[a]) == i) skip = 1;	/* DLCIs named on the command line stay without a handler */
+		if (i != SC_DLCI_ECHO && !skip) sercomm_register_rx_cb(i, handler);
+	}
 	printf("rx_size %%d\n", SERCOMM_RX_MSG_SIZE);
 	while (fgets(line, sizeof(line), stdin)) {
 		a2[0] = 0;
@@ -223,10 +226,12 @@ def short(m):
 
 def judge(S, mode, ops, h):
     rx = RX[mode]
+    unreg = sorted(set(x for op in ops if op[0] == "unreg" for x in op[1]))
+    ops = [op for op in ops if op[0] != "unreg"]
     script = play(ops, rx)
-    r = h.run([], timeout=120, stdin="\n".join(script) + "\n")
+    r = h.run([str(x) for x in unreg], timeout=120, stdin="\n".join(script) + "\n")
     S.cases += 1
-    inp = {"build": mode, "rx_size": rx, "script": [("%s ...(%d hex digits)" % (s[:70], len(s))) if len(s) > 90 else s for s in script][:40]}
+    inp = {"build": mode, "rx_size": rx, "dlcis_without_a_handler": unreg, "script": [("%s ...(%d hex digits)" % (s[:70], len(s))) if len(s) > 90 else s for s in script][:40]}
     if r.get("rc") is None:
         raise _c.OracleCrash("harness build failed: %s" % (r.get("build_error") or "")[-500:])
     obs = parse(r.get("stdout") or "")
@@ -249,6 +254,11 @@ def judge(S, mode, ops, h):
     skip_next = False
     done_frames = ref.frames if not ref.cur else ref.frames[:-1]       # a frame still in transmission at the end is not complete
     for (d, p) in done_frames:
+        if d in unreg and len(p) < rx:
+            # nobody registered for this DLCI: the frame is dropped and costs nothing (if it was the frame following an over-long one, that
+            # one frame is lost now)
+            skip_next = False
+            continue
         if len(p) > rx:
             skip_next = True
             continue
@@ -282,9 +292,30 @@ def judge(S, mode, ops, h):
         S.fail("delivery that was never sent (duplicate or corrupted)", inp, [short(x) for x in extra[:3]], {"deliveries": [short(x) for x in must[:6]]})
 
 
+def good_frames(k0=0):
+    """five good frames on different DLCIs, each pumped through on its own"""
+    out = []
+    for i, (d, p) in enumerate([(6, [0x70, 0x72]), (7, [0x7E, 0, 0x7D]), (3, []), (90, [0x11, 0x13, 0xFF]), (0, [0x5E, 0x5D, 0x20, k0 & 255])]):
+        out += [("send", d, p), ("pump",)]
+    return out
+
+
 def fixed(rx):
     sp = [0x7E, 0x7D, 0x00, 0x5E, 0x5D, 0x20, 0x03, 0xFF, 0x7E, 0x7E, 0x7D, 0x00]
     sc = []
+    # frames for DLCIs nobody registered (unregistered below _SC_DLCI_MAX; at and above it, where no handler can exist - those reach the
+    # receiver as raw octets, sercomm_sendmsg cannot queue them), each followed by five good frames: a frame nobody listens to costs nothing
+    for d in (17, 99, 126, 1):
+        for p in ([], [1, 2, 3], [0x7E, 0x00, 0x7D] * 5):
+            sc.append([("unreg", [d]), ("send", d, p), ("pump",)] + good_frames(d))
+    sc.append([("unreg", [17, 99]), ("send", 17, [1]), ("send", 99, [2]), ("send", 5, [3]), ("pump",)] + good_frames(1))
+    for d in (129, 130, 200, 254, 255):
+        for p in ([], [9, 8, 7], [0x41] * (rx - 1)):
+            sc.append([("noise", W.frame(d, p))] + good_frames(d) + [("noise", W.frame(d, p) + W.frame(d, p))] + good_frames(d + 1))
+    # an over-long frame followed by five good frames, with and without a handler on the DLCI the misparsed following frame lands on (7E)
+    for un in ([], [0x7E]):
+        for n_over in (rx + 1, rx + 7, 2 * rx):
+            sc.append([("unreg", un), ("send", 4, [0x41 + (i % 7) for i in range(n_over)]), ("pump",)] + good_frames(n_over))
     for base in range(0, 128, 16):
         sc.append([("send", d, sp[: 1 + d % 11]) for d in range(base, base + 16)] + [("pump",)])
     sc.append([("send", 5, [b]) for b in range(256)] + [("pump",)])
@@ -325,8 +356,15 @@ def random_scenario(rnd, rx):
         if rnd.random() < 0.25:
             n_over = rnd.choice([rx + 1, rx + 2, rx + rnd.randrange(1, 200), 2 * rx + 5])
             ops += [("send", rnd.randrange(128), [rnd.choice(special) if rnd.random() < 0.4 else rnd.randrange(256) for _ in range(n_over)]), ("pump",)]
-    # finish with two plain frames so that every scenario ends in sync
-    ops += [("send", 3, [1, 2, 3]), ("pump",), ("send", 2, [4, 5]), ("pump",)]
+    # finish with plain frames so that every scenario ends in sync
+    ops += [("send", 3, [1, 2, 3]), ("pump",), ("send", 2, [4, 5]), ("pump",), ("send", 1, [6]), ("pump",), ("send", 8, [7, 0x7E]), ("pump",)]
+    if rnd.random() < 0.4:
+        # some DLCIs without a handler (never the ones of the closing frames); 7E is where a frame misparsed after an over-long one lands
+        ops.insert(0, ("unreg", sorted(set([0x7E] * (rnd.random() < 0.6) + [rnd.choice([0, 0x7D, 17, 99, 120]) for _ in range(rnd.randrange(0, 3))]))))
+    if rnd.random() < 0.3:
+        k = rnd.randrange(len(ops))
+        if all(op[0] != "pull" for op in ops[:k][-1:]) and (k == 0 or ops[k - 1][0] == "pump"):
+            ops.insert(k, ("noise", W.frame(rnd.choice([129, 200, 255]), [rnd.randrange(256) for _ in range(rnd.randrange(0, 20))])))
     return ops
 
 
